@@ -25,6 +25,10 @@ const SOUP: &[&str] = &[
 ];
 
 fn soup_string(rng: &mut Rng) -> String {
+    // now and then the empty string (as a pattern or as a lookahead pattern)
+    if rng.chance(1, 60) {
+        return String::new();
+    }
     let n = rng.range(1, 12);
     let mut s = String::new();
     for _ in 0..n {
